@@ -1,6 +1,7 @@
 import HdVerif.Model.EncapBytes
 import HdVerif.Proofs.Offsets
 import HdVerif.Proofs.OffsetsTie
+import HdVerif.Proofs.FrameAccess
 /-! C05: the byte-level reader of encapsulated pixel data (`Model/EncapBytes.lean`) REFINES the fragment-level
 bookkeeping of `Model/Offsets.lean`: on the PS3.5 A.4 encoding of a fragment list, reading tags / lengths / data from
 the bytes and walking the items is what the fragment-level loops do (induction over the item list), and a stream that is
@@ -403,6 +404,52 @@ theorem readEot_enc (es : List Nat) (n : Nat) (hs : ∀ e ∈ es, e < 1844674407
     simp [h, this]
   · have : ((es.length : Int) != (n : Int)) = true := by simp; omega
     simp [h, this]
+
+/-! ### native pixel data in the file -/
+
+open HdVerif.Bits HdVerif.FrameAccess HdVerif.FrameAccessLemmas
+
+theorem nativeHeader_length (implicit : Bool) (vr : Bytes) (len : Nat) (hvr : 2 ≤ vr.length) :
+    (nativeHeader implicit vr len).length = if implicit then 8 else 12 := by
+  cases implicit <;> simp [nativeHeader, leBytes_length, List.length_take]; omega
+
+/-- **native pixel data, file level = value level**: with the element header in front of the value (8 bytes under implicit VR, 12
+    under explicit VR: the regenerated `nativeFirstFrameOffset`) reading a frame at the remembered file position is slicing the
+    value - whenever the offset-table entry and the read length are not negative (they are products and quotients of sizes) -/
+theorem lazy_native_file_eq (pre value : Bytes) (implicit : Bool) (vr : Bytes) (hvr : 2 ≤ vr.length)
+    (rows cols samples bits n : Int) (pi : String) (idx i bpf off len : Int)
+    (h1 : lazyIndexGuard idx n = .ok i) (h2 : lazyBytesPerFrame (rows * cols * samples) bits pi rows cols = .ok bpf)
+    (h3 : (if bits = 1 then lazyOffsetBit i (rows * cols * samples) else lazyOffsetByte i bpf) = .ok off)
+    (h4 : lazyReadLength i off bits (rows * cols * samples) bpf = .ok len) (ho : 0 ≤ off) (hl : 0 ≤ len) :
+    lazyRawNativeFile (pre ++ (nativeHeader implicit vr value.length ++ value)) pre.length implicit rows cols samples bits n pi idx
+      = lazyRaw value rows cols samples bits n pi idx := by
+  have hh := nativeHeader_length implicit vr value.length hvr
+  have hpos : ((pre.length : Int) + (if implicit then (4 : Int) + 4 else 4 + 2 + 2 + 4) + off).toNat
+      = (pre ++ nativeHeader implicit vr value.length).length + off.toNat := by
+    rw [List.length_append, hh]; cases implicit <;> simp <;> omega
+  have hneg : ¬ ((pre.length : Int) + (if implicit then (4 : Int) + 4 else 4 + 2 + 2 + 4) + off < 0 ∨ len < 0) := by
+    cases implicit <;> simp <;> omega
+  have e : pre ++ (nativeHeader implicit vr value.length ++ value) = (pre ++ nativeHeader implicit vr value.length) ++ value := by
+    simp [List.append_assoc]
+  have hneg2 : ¬ (off < 0 ∨ off + len < 0) := by omega
+  have hlen : (off + len).toNat - off.toNat = len.toNat := by omega
+  unfold lazyRawNativeFile lazyRaw
+  by_cases hb : bits = 1
+  · subst hb
+    simp only [↓reduceIte] at h3
+    simp only [bind, Except.bind, h1, h2, ↓reduceIte, h3, h4, nativeFirstFrameOffset, readSeekPosition, hneg, hpos]
+    rw [e, readAt_shift]
+    unfold slice
+    simp only [hneg2, ↓reduceIte]
+    unfold readAt pySlice
+    rw [hlen]
+  · simp only [hb, ↓reduceIte] at h3
+    simp only [bind, Except.bind, h1, h2, hb, ↓reduceIte, h3, h4, nativeFirstFrameOffset, readSeekPosition, hneg, hpos]
+    rw [e, readAt_shift]
+    unfold slice
+    simp only [hneg2, ↓reduceIte]
+    unfold readAt pySlice
+    rw [hlen]
 
 end HdVerif.EncapBytes
 
